@@ -377,10 +377,18 @@ def oracle_noncubic_matcher(ck, rng):
                 pts.append(p_)
         for p_ in pts:
             img[tuple(slice(c - h, c + h + 1) for c, h in zip(p_, half))] += t
+        from scipy.spatial.transform import Rotation
+        # (every second case: the same search with a list of rotations - identity first - and the image and template in other grey-value units;
+        #  the unrotated particles must still be found at their places, as the identity candidate)
+        rots_ = Rotation.from_euler("z", [[0.0], [90.0]], degrees=True) if it % 2 else None
+        gain_ = [1.0, 2e-3, 1.0, 5e2][it % 4]
         for ch in (N, chunks):
-            c = dict(picker="ZNCC", template_shape=list(tshape), chunks=list(ch), scale=scale, points=[list(p_) for p_ in pts])
+            c = dict(picker="ZNCC", template_shape=list(tshape), chunks=list(ch), scale=scale, points=[list(p_) for p_ in pts], rotations=bool(it % 2), gain=gain_)
             try:
-                m = ZNCCTemplateMatcher(t).pick_molecules(da.from_array(img, chunks=ch), scale, min_distance=4.0 * scale, min_score=0.6)
+                matcher_ = ZNCCTemplateMatcher((t * np.float32(gain_)).astype(np.float32), rotation=rots_) if rots_ is not None else ZNCCTemplateMatcher((t * np.float32(gain_)).astype(np.float32))
+                m = matcher_.pick_molecules(da.from_array((img * np.float32(gain_)).astype(np.float32), chunks=ch), scale, min_distance=4.0 * scale, min_score=0.6)
+                if rots_ is not None and len(m) and float(np.max((m.rotator.inv() * rots_[0]).magnitude())) > 1e-3:
+                    raise AssertionError("a particle planted without rotation is reported with the 90-degree candidate")
                 got = sorted(tuple(int(v) for v in np.round(np.asarray(q) / scale)) for q in m.pos)
                 missing = sorted(set(pts) - set(got)); extra = sorted(set(got) - set(pts)); dup = len(got) != len(set(got))
                 detail = (f"missing {missing}" if missing else "") + (f" extra {extra}" if extra else "") + (" duplicates" if dup else "")
